@@ -2,6 +2,7 @@ package rules
 
 import (
 	"fmt"
+	"os"
 	"go/token"
 	"go/types"
 	"strings"
@@ -20,9 +21,18 @@ import (
 // change to it and writeState serialises it.  That store equals the live crew only if it starts from what the crew was
 // rebuilt from: Read decodes the state file into that very field and hands out what it holds.
 func c15StoreSeeded(c *Ctx, rule string) {
-	// the field that the store's writer serialises
+	sio := c.P.FuncsIn("sio")
+	isMachines := func(t types.Type) bool {
+		pt, isP := t.Underlying().(*types.Pointer)
+		if !isP {
+			return false
+		}
+		_, isMap := pt.Elem().Underlying().(*types.Map)
+		return isMap
+	}
+	// the field that the store's writer serialises (directly, or through a helper that is handed its address)
 	owner, field := "", ""
-	for _, f := range c.P.FuncsIn("sio") {
+	for _, f := range sio {
 		ssau.Instrs(f, func(in ssa.Instruction) {
 			cl, ok := in.(*ssa.Call)
 			if !ok || !strings.HasPrefix(ssau.CalleeName(cl), "encoding/json.Marshal") || len(cl.Common().Args) == 0 {
@@ -35,11 +45,17 @@ func c15StoreSeeded(c *Ctx, rule string) {
 			if ld, isLd := v.(*ssa.UnOp); isLd {
 				v = ld.X
 			}
-			if n, fld, _, isF := ssau.FieldOf(v); isF && n != nil && n.Obj().Pkg() != nil && n.Obj().Pkg().Path() == prog.Abs("sio") {
-				if pt, isP := v.Type().Underlying().(*types.Pointer); isP {
-					if _, isMap := pt.Elem().Underlying().(*types.Map); isMap {
-						owner, field = n.Obj().Name(), fld
-					}
+			// (the function that marshals may be a helper that is handed the field's address: resolve its parameters too)
+			var scope []*ssa.Function
+			for _, g := range sio {
+				if g != f {
+					scope = append(scope, g)
+				}
+			}
+			scope = append(scope, f)
+			for _, d := range deepDefs(v, scope) {
+				if n, fld, _, isF := ssau.FieldOf(d); isF && n != nil && n.Obj().Pkg() != nil && n.Obj().Pkg().Path() == prog.Abs("sio") && isMachines(d.Type()) {
+					owner, field = n.Obj().Name(), fld
 				}
 			}
 		})
@@ -50,7 +66,7 @@ func c15StoreSeeded(c *Ctx, rule string) {
 	}
 	isStoreField := func(addr ssa.Value) bool { return ssau.IsField(addr, prog.Abs("sio"), owner, field) }
 	total := 0
-	for _, read := range c.P.FuncsIn("sio") {
+	for _, read := range sio {
 		if read.Name() != "Read" || read.Signature.Recv() == nil || read.Signature.Results().Len() != 2 {
 			continue
 		}
@@ -58,50 +74,66 @@ func c15StoreSeeded(c *Ctx, rule string) {
 			continue
 		}
 		c.R.Fn(fname(read))
-		// decode targets
+		scope := []*ssa.Function{read}
+		for _, g := range pkgClosure(read) {
+			if g != read && prog.PkgOf(g) == "sio" {
+				scope = append(scope, g)
+			}
+		}
 		n := 0
-		ssau.Instrs(read, func(in ssa.Instruction) {
-			cl, ok := in.(*ssa.Call)
-			if !ok {
-				return
-			}
-			name := ssau.CalleeName(cl)
-			var target ssa.Value
-			switch {
-			case name == "encoding/json.Unmarshal" && len(cl.Common().Args) == 2:
-				target = cl.Common().Args[1]
-			case strings.HasSuffix(name, "json.Decoder).Decode") && len(cl.Common().Args) >= 1:
-				target = cl.Common().Args[len(cl.Common().Args)-1]
-			default:
-				return
-			}
-			if mi, isMI := target.(*ssa.MakeInterface); isMI {
-				target = mi.X
-			}
-			pt, isPtr := target.Type().Underlying().(*types.Pointer)
-			if !isPtr {
-				return
-			}
-			if _, isMap := pt.Elem().Underlying().(*types.Map); !isMap {
-				return
-			}
-			n++
-			total++
-			okT := isStoreField(target)
-			if al, isAl := target.(*ssa.Alloc); isAl && !okT {
-				// decoded into a local variable that is then made the store
-				for _, r := range ssau.Referrers(al) {
-					if ld, isLd := r.(*ssa.UnOp); isLd {
-						for _, r2 := range ssau.Referrers(ld) {
-							if st, isSt := r2.(*ssa.Store); isSt && st.Val == ssa.Value(ld) && isStoreField(st.Addr) && cl.Block().Dominates(st.Block()) {
-								okT = true
+		for _, f := range scope {
+			ssau.Instrs(f, func(in ssa.Instruction) {
+				cl, ok := in.(*ssa.Call)
+				if !ok {
+					return
+				}
+				name := ssau.CalleeName(cl)
+				var target ssa.Value
+				switch {
+				case name == "encoding/json.Unmarshal" && len(cl.Common().Args) == 2:
+					target = cl.Common().Args[1]
+				case strings.HasSuffix(name, "json.Decoder).Decode") && len(cl.Common().Args) >= 1:
+					target = cl.Common().Args[len(cl.Common().Args)-1]
+				default:
+					return
+				}
+				if mi, isMI := target.(*ssa.MakeInterface); isMI {
+					target = mi.X
+				}
+				if !isMachines(target.Type()) {
+					return
+				}
+				n++
+				total++
+				okT := true
+				leaves := deepDefs(target, scope)
+				if len(leaves) == 0 {
+					okT = false
+				}
+				for _, lf := range leaves {
+					if isStoreField(lf) {
+						continue
+					}
+					okL := false
+					if al, isAl := lf.(*ssa.Alloc); isAl {
+						// decoded into a local variable that is then made the store
+						for _, r := range ssau.Referrers(al) {
+							if ld, isLd := r.(*ssa.UnOp); isLd {
+								for _, r2 := range ssau.Referrers(ld) {
+									if st, isSt := r2.(*ssa.Store); isSt && st.Val == ssa.Value(ld) && isStoreField(st.Addr) {
+										okL = true
+									}
+								}
 							}
 						}
 					}
+					if !okL {
+						okT = false
+					}
 				}
-			}
-			c.R.Check(okT, rule, fmt.Sprintf("%s: decode #%d fills the host's store", fname(read), n), c.pos(cl), "the persisted machines are decoded into "+owner+"."+field+", the map the output loop updates and writeState writes", "the state file is decoded into something else than "+owner+"."+field+": the host's store starts empty while the crew is rebuilt with every machine, so what is written at the next stop lacks the machines that have not changed since")
-		})
+				c.R.Check(okT, rule, fmt.Sprintf("%s: decode #%d fills the host's store", fname(read), n), c.pos(cl), "the persisted machines are decoded into "+owner+"."+field+", the map the output loop updates and writeState writes", "the state file is decoded into something else than "+owner+"."+field+": the host's store starts empty while the crew is rebuilt with every machine, so what is written at the next stop lacks the machines that have not changed since")
+			})
+		}
 	}
 	if total == 0 {
 		c.R.Break(rule + ": no Read method of package sio decodes persisted machines")
@@ -152,19 +184,22 @@ func c20SpecUntouched(c *Ctx, rule string) {
 // edge that found its list of branches empty (len == 0; a nil list has length 0 too), and a node without any branching
 // (nil Branches) is added as well — through its own nil test or because the list taken for such a node is nil.
 func c20Terminal(c *Ctx, rule string, ana *ssa.Function, scope []*ssa.Function) {
+	// the appends of node names that are decided by a test of the node's branches (in Analyze or a helper of it)
 	var apps []*ssa.Call
-	for _, st := range storesToPkg(ana, "tools", "SpecAnalysis", "TerminalNodes") {
-		for _, d := range deepDefs(st.Val, scope) {
-			if cl, ok := d.(*ssa.Call); ok {
-				if b, isB := cl.Common().Value.(*ssa.Builtin); isB && b.Name() == "append" && cl.Parent() == ana {
-					apps = append(apps, cl)
-				}
+	for _, f := range scope {
+		ssau.Instrs(f, func(in ssa.Instruction) {
+			cl, ok := in.(*ssa.Call)
+			if !ok {
+				return
 			}
-		}
-	}
-	if len(apps) == 0 {
-		c.R.Break(rule + ": no append feeding SpecAnalysis.TerminalNodes found in Analyze")
-		return
+			if b, isB := cl.Common().Value.(*ssa.Builtin); !isB || b.Name() != "append" {
+				return
+			}
+			if sl, isSl := cl.Type().Underlying().(*types.Slice); !isSl || sl.Elem().String() != "string" {
+				return
+			}
+			apps = append(apps, cl)
+		})
 	}
 	isBranchList := func(v ssa.Value) (list, nilOK bool) {
 		for _, d := range deepDefs(v, scope) {
@@ -177,7 +212,8 @@ func c20Terminal(c *Ctx, rule string, ana *ssa.Function, scope []*ssa.Function) 
 		}
 		return
 	}
-	for i, ap := range apps {
+	ncand := 0
+	for _, ap := range apps {
 		B := ap.Block()
 		var edges [][]flow.Fact
 		if len(B.Preds) <= 1 {
@@ -224,6 +260,11 @@ func c20Terminal(c *Ctx, rule string, ana *ssa.Function, scope []*ssa.Function) 
 				}
 			}
 		}
+		if !emptyEdge && !nilEdge {
+			continue // not decided by the node's branches: another list
+		}
+		ncand++
+		i := ncand - 1
 		var why []string
 		if !emptyEdge {
 			why = append(why, "no edge into the append tests the list of branches for being empty (a node whose branching has an empty list is not reported as terminal)")
@@ -232,6 +273,9 @@ func c20Terminal(c *Ctx, rule string, ana *ssa.Function, scope []*ssa.Function) 
 			why = append(why, "no edge into the append covers a node without any branching")
 		}
 		c.R.Check(len(why) == 0, rule, fmt.Sprintf("Analyze: terminal nodes #%d are the nodes without a branch", i+1), c.pos(ap), "added on the 'len(Branches.Branches) == 0' edge and for nil Branches", strings.Join(why, "; "))
+	}
+	if ncand == 0 {
+		c.R.Violate(rule, "Analyze: terminal nodes are the nodes without a branch", c.P.Pos(ana.Pos()), "no list of node names in Analyze is filled under a test of the node's branches (neither 'no branching' nor 'an empty list of branches' decides what is reported as terminal)")
 	}
 }
 
@@ -369,13 +413,21 @@ func c01ArrayVariable(c *Ctx, rule string) {
 		}
 	}
 	var gv *ssa.Call
-	ssau.Instrs(match, func(in ssa.Instruction) {
-		if cl, ok := in.(*ssa.Call); ok && cl.Common().StaticCallee() == getVar {
-			gv = cl
-		}
-	})
+	for _, f := range scope {
+		ssau.Instrs(f, func(in ssa.Instruction) {
+			if cl, ok := in.(*ssa.Call); ok && cl.Common().StaticCallee() == getVar {
+				gv = cl
+			}
+		})
+	}
 	if gv == nil {
-		c.R.Break(rule + ": match does not call getVariable")
+		c.R.Break(rule + ": the matcher does not call getVariable")
+		return
+	}
+	// the array case may live in match itself or in a function of its own
+	match = gv.Parent()
+	if match.Signature.Results().Len() != 2 {
+		c.R.Break(rule + ": the function that holds the array case does not answer (bindings, error)")
 		return
 	}
 	var v, xs ssa.Value
@@ -502,66 +554,81 @@ func c08ExecHandsBack(c *Ctx, rule string) {
 		c.R.Break(rule + ": Interpreter.Exec or Events.AddEmitted not found")
 		return
 	}
-	// the captured execution: what the free variable of the emitting literal is bound to in Exec
-	var captured []ssa.Value
-	var trace func(v ssa.Value, f *ssa.Function, depth int)
-	trace = func(v ssa.Value, f *ssa.Function, depth int) {
-		if depth > 10 {
-			return
+	// the execution that collects: where the receiver of AddEmitted comes from, resolved through literals, bound
+	// methods, helper parameters and fields of local structs
+	var scope []*ssa.Function
+	for _, f := range c.P.AllFuncs {
+		if f.Blocks == nil {
+			continue
 		}
-		switch x := v.(type) {
-		case *ssa.FieldAddr:
-			trace(x.X, f, depth+1)
-		case *ssa.UnOp:
-			trace(x.X, f, depth+1)
-		case *ssa.FreeVar:
-			for i, fv := range f.FreeVars {
-				if fv != x || f.Parent() == nil {
-					continue
-				}
-				ssau.Instrs(f.Parent(), func(in ssa.Instruction) {
-					if mc, ok := in.(*ssa.MakeClosure); ok && mc.Fn == ssa.Value(f) && i < len(mc.Bindings) {
-						if f.Parent() == exec {
-							captured = append(captured, mc.Bindings[i])
-						} else {
-							trace(mc.Bindings[i], f.Parent(), depth+1)
-						}
-					}
-				})
-			}
-		default:
-			if f == exec {
-				captured = append(captured, v)
+		if prog.PkgOf(f) == "interpreters/ecmascript" {
+			scope = append(scope, f)
+			continue
+		}
+		// bound-method and other wrappers of the package's methods
+		if f.Synthetic != "" && f.Signature.Recv() == nil && len(f.FreeVars) > 0 {
+			if n := ssau.NamedOf(f.FreeVars[0].Type()); n != nil && n.Obj().Pkg() != nil && n.Obj().Pkg().Path() == prog.Abs("interpreters/ecmascript") {
+				scope = append(scope, f)
 			}
 		}
 	}
-	for _, f := range ssau.WithAnon(exec) {
+	captured := map[ssa.Value]bool{}
+	for _, f := range scope {
 		ssau.Instrs(f, func(in ssa.Instruction) {
-			if ci, ok := in.(ssa.CallInstruction); ok && ci.Common().StaticCallee() == addEmitted && len(ci.Common().Args) > 0 {
-				trace(ci.Common().Args[0], f, 0)
+			ci, ok := in.(ssa.CallInstruction)
+			if !ok || ci.Common().StaticCallee() != addEmitted || len(ci.Common().Args) == 0 {
+				return
+			}
+			// &exe.Events / exe.Events -> exe
+			v := ci.Common().Args[0]
+			for k := 0; k < 4; k++ {
+				switch x := v.(type) {
+				case *ssa.UnOp:
+					if fa, isFA := x.X.(*ssa.FieldAddr); isFA && ssau.TypeIs(fa.X.Type(), prog.Abs("core"), "Execution") {
+						v = fa.X
+						k = 4
+					} else {
+						v = x.X
+					}
+				case *ssa.FieldAddr:
+					if ssau.TypeIs(x.X.Type(), prog.Abs("core"), "Execution") {
+						v = x.X
+						k = 4
+					} else {
+						v = x.X
+					}
+				}
+			}
+			for _, d := range resolveThroughLocals(v, scope) {
+				captured[d] = true
 			}
 		})
+	}
+	if os.Getenv("VERIF_DEBUG") != "" {
+		for _, f := range c.P.AllFuncs {
+			if f.Synthetic != "" && strings.Contains(f.String(), "ecmascript") {
+				fmt.Fprintf(os.Stderr, "synthetic: %s (%s) recv=%v fv=%d blocks=%v\n", f.String(), f.Synthetic, f.Signature.Recv(), len(f.FreeVars), f.Blocks != nil)
+			}
+		}
+		for d := range captured {
+			fmt.Fprintf(os.Stderr, "C08-R8 captured: %T %s in %s\n", d, d.String(), fname(d.(interface{ Parent() *ssa.Function }).Parent()))
+		}
 	}
 	if len(captured) == 0 {
 		c.R.Break(rule + ": the Execution that the emit callback appends to was not found in Exec")
 		return
 	}
 	same := func(v ssa.Value) bool {
-		for _, cv := range captured {
-			if v == cv {
-				return true
-			}
-			// through the variable's cell
-			if ld, ok := v.(*ssa.UnOp); ok && ld.X == cv {
-				return true
-			}
-			if ld, ok := cv.(*ssa.UnOp); ok {
-				if l2, ok2 := v.(*ssa.UnOp); ok2 && l2.X == ld.X {
-					return true
-				}
+		ds := resolveThroughLocals(v, scope)
+		if len(ds) == 0 {
+			return false
+		}
+		for _, d := range ds {
+			if !captured[d] {
+				return false
 			}
 		}
-		return false
+		return true
 	}
 	n := 0
 	for _, b := range exec.Blocks {
@@ -739,7 +806,7 @@ func c13TextDecoded(c *Ctx, rule string) {
 			}
 			isJSON, isText := false, false
 			for _, ft := range flow.Expand(flow.FactsAt(d.b)) {
-				if bo, isB := ft.Cond.(*ssa.BinOp); isB && bo.Op == token.EQL && ft.True {
+				if bo, isB := ft.Cond.(*ssa.BinOp); isB && ((bo.Op == token.EQL && ft.True) || (bo.Op == token.NEQ && !ft.True)) {
 					if s, isS := ssau.ConstString(bo.Y); isS && s == "json" && bo.X == ssa.Value(parser.Params[0]) {
 						isJSON = true
 					}
@@ -892,22 +959,37 @@ func c19TimeoutArmedOnce(c *Ctx, rule string, run *ssa.Function) {
 // a nil error, a nil Execution, or hands on both results of one and the same call.
 func c08Wrappers(c *Ctx, rule string) {
 	var fns []*ssa.Function
-	if f := c.P.Func("core", "FuncAction", "Exec"); f != nil {
-		fns = append(fns, f)
+	seen := map[*ssa.Function]bool{}
+	add := func(f *ssa.Function) {
+		if f != nil && f.Blocks != nil && !seen[f] && f.Signature.Results().Len() == 2 && ssau.TypeIs(f.Signature.Results().At(0).Type(), prog.Abs("core"), "Execution") {
+			seen[f] = true
+			fns = append(fns, f)
+		}
 	}
-	if f := c.P.Func("core", "ActionSource", "Compile"); f != nil {
-		for _, g := range ssau.WithAnon(f) {
-			if g != f && g.Signature.Results().Len() == 2 && ssau.TypeIs(g.Signature.Results().At(0).Type(), prog.Abs("core"), "Execution") {
-				fns = append(fns, g)
+	add(c.P.Func("core", "FuncAction", "Exec"))
+	// what package core itself installs as a FuncAction's function
+	for _, f := range c.P.FuncsIn("core") {
+		for _, st := range storesTo(f, "FuncAction", "F") {
+			switch x := st.Val.(type) {
+			case *ssa.MakeClosure:
+				add(x.Fn.(*ssa.Function))
+			case *ssa.Function:
+				add(x)
 			}
 		}
 	}
-	if len(fns) < 2 {
-		c.R.Break(rule+": expected FuncAction.Exec and the function built by ActionSource.Compile, found %d", len(fns))
+	if len(fns) == 0 {
+		c.R.Break(rule + ": core.(*FuncAction).Exec not found")
 		return
 	}
 	for _, f := range fns {
 		c.R.Fn(fname(f))
+		scope := []*ssa.Function{f}
+		for _, g := range pkgClosure(f) {
+			if prog.PkgOf(g) == "core" && g != f {
+				scope = append(scope, g)
+			}
+		}
 		n := 0
 		for _, b := range f.Blocks {
 			ret, ok := b.Instrs[len(b.Instrs)-1].(*ssa.Return)
@@ -918,38 +1000,25 @@ func c08Wrappers(c *Ctx, rule string) {
 			exe, err := ret.Results[0], ret.Results[1]
 			okR := provablyNil(err, b) || provablyNil(exe, b)
 			if !okR {
-				// the pair of one call, handed on as it is
-				e0, is0 := exe.(*ssa.Extract)
-				e1, is1 := err.(*ssa.Extract)
-				if is0 && is1 && e0.Tuple == e1.Tuple && e0.Index == 0 && e1.Index == 1 {
-					okR = true
-				}
-			}
-			if !okR {
-				// an Execution that is only returned where the error is known to be nil
+				// an Execution that comes from a call (and so may carry events) is only ever accompanied by that call's own error
 				okR = true
-				for _, d := range phiEdgesWithBlocks(err, b) {
-					if ssau.IsNilConst(d.v) {
-						continue
+				for _, de := range deepDefs(exe, scope) {
+					ex, isEx := de.(*ssa.Extract)
+					if !isEx || ex.Index != 0 {
+						continue // nil, or an Execution made in this layer (nothing was emitted into it)
 					}
-					// on this edge the error may be set: the execution must be nil on it, or the error the partner of the execution
-					for _, de := range phiEdgesWithBlocks(exe, b) {
-						if ssau.IsNilConst(de.v) {
+					for _, dr := range deepDefs(err, scope) {
+						if ssau.IsNilConst(dr) {
 							continue
 						}
-						if d.b != de.b && len(phiEdgesWithBlocks(exe, b)) > 1 {
-							continue
-						}
-						e0, is0 := de.v.(*ssa.Extract)
-						e1, is1 := d.v.(*ssa.Extract)
-						if is0 && is1 && e0.Tuple == e1.Tuple {
+						if er, isEr := dr.(*ssa.Extract); isEr && er.Tuple == ex.Tuple {
 							continue
 						}
 						okR = false
 					}
 				}
 			}
-			c.R.Check(okR, rule, fmt.Sprintf("%s: return #%d keeps 'an error comes without an Execution'", fname(f), n), c.pos(ret), "nil error, nil Execution, or both results of one call handed on", "a layer between the interpreter and Step can return an Execution together with an error of its own: Step attaches that Execution's events, so a failing action's emissions become visible")
+			c.R.Check(okR, rule, fmt.Sprintf("%s: return #%d keeps 'an error comes without an Execution'", fname(f), n), c.pos(ret), "nil error, nil Execution, or an Execution handed on together with the error of the call it came from", "a layer between the interpreter and Step can return the Execution of a completed run together with an error of its own: Step attaches that Execution's events, so a failing action's emissions become visible")
 		}
 	}
 }
